@@ -471,6 +471,19 @@ class DefUse:
                                  slot=("mut", id(node)))
                     env[name] = frozenset({d})
                     self._register(stmt, d)
+                    # the name may be a local alias of an element of
+                    # another local container (a = xs[k]; a.append(v)):
+                    # that container changes as well
+                    al = self._alias_of(prev, env)
+                    if al is not None:
+                        base, recv = al
+                        bprev = env.get(base, EMPTY)
+                        d2 = self._mk(base, "mut", stmt, node,
+                                      {"method": meth, "prev": bprev,
+                                       "receiver": recv},
+                                      slot=("mutalias", id(node)))
+                        env[base] = frozenset({d2})
+                        self._register(stmt, d2)
             # subscripted receivers:  x[k].append(v)  /  x[k] += ...
             elif isinstance(node, ast.Call) and isinstance(
                 node.func, ast.Attribute
@@ -488,6 +501,34 @@ class DefUse:
                                  slot=("mut", id(node)))
                     env[root.id] = frozenset({d})
                     self._register(stmt, d)
+
+    def _alias_of(self, defs, env):
+        """(container name, receiver expr) when every definition in
+        ``defs`` - looking through in-place updates - is a plain assignment
+        from one subscript ``xs[k]`` of a local container ``xs``."""
+        seen, work, found = set(), list(defs), []
+        while work:
+            d = work.pop()
+            if d is _UNDEF or id(d) in seen:
+                continue
+            seen.add(id(d))
+            ex = d.extra or {}
+            if d.kind in ("mut", "aug") and "prev" in ex and \
+                    not ex.get("receiver"):
+                work.extend(ex["prev"])
+            elif d.kind == "assign" and not ex.get("path") and isinstance(
+                    d.value, ast.Subscript):
+                root = d.value
+                while isinstance(root, ast.Subscript):
+                    root = root.value
+                if not isinstance(root, ast.Name) or root.id not in env:
+                    return None
+                found.append((root.id, d.value))
+            else:
+                return None
+        if found and len({b for b, _r in found}) == 1:
+            return found[0]
+        return None
 
     # -- statements
     def _snap(self, env):
@@ -538,6 +579,28 @@ class DefUse:
                              {"op": type(st.op).__name__, "prev": prev})
                 env[t.id] = frozenset({d})
                 self._register(st, d)
+                # a += x on a local alias of xs[k] (in place for lists,
+                # sets, dicts): xs changes as well
+                if type(st.op).__name__ in ("Add", "BitOr", "BitAnd", "Sub",
+                                            "BitXor"):
+                    al = self._alias_of(prev, env)
+                    if al is not None:
+                        base, recv = al
+                        meth = {"Add": "extend", "BitOr": "update"}.get(
+                            type(st.op).__name__, "__iop__")
+                        fake = ast.Call(
+                            func=ast.Attribute(value=recv, attr=meth,
+                                               ctx=ast.Load()),
+                            args=[st.value], keywords=[])
+                        ast.copy_location(fake, st)
+                        ast.fix_missing_locations(fake)
+                        d2 = self._mk(base, "mut", st, fake,
+                                      {"method": meth,
+                                       "prev": env.get(base, EMPTY),
+                                       "receiver": recv},
+                                      slot=("mutalias", id(st)))
+                        env[base] = frozenset({d2})
+                        self._register(st, d2)
             elif isinstance(t, ast.Subscript):
                 self._expr(t.value, env)
                 self._expr(t.slice, env)
@@ -958,7 +1021,7 @@ class Terms:
 
     def _bind_canon(self, f, args, kws, skip_first):
         a = f.node.args
-        if a.vararg or a.kwarg or any(
+        if a.vararg or any(
                 isinstance(x, tuple) and x and x[0] == "star"
                 for x in args) or any(k == "**" for k, _v in kws):
             return None
@@ -970,9 +1033,11 @@ class Terms:
             return None
         bound = dict(zip(pos, args))
         for k, v in kws:
-            if k in bound or k not in pos + kwonly:
+            if k in bound:
                 return None
-            bound[k] = v
+            if k not in pos + kwonly and not a.kwarg:
+                return None
+            bound[k] = v      # names collected by **kwargs stay keywords
         defaults = {}
         for name, d in f.defaults().items():
             if isinstance(d, ast.Constant):
